@@ -79,3 +79,10 @@ Example C19_nonvacuous :
   snd (hrun (hinit (str "/s")) [HNotify; HNotify; HNotify; HTimer; HNotify; HTimer; HTimer]) =
   [[RunAll (str "/s")]; []; []; [RunAll (str "/s")]; [RunAll (str "/s")]; []; []].
 Proof. vm_compute. reflexivity. Qed.
+
+(* ---- the model's state space is the code's declared state ----
+   (theories/StateInst.v: package-level variables and struct fields listed by tools/facts on every
+   run; the models keep no state between operations other than these components) *)
+From Whawty Require StateInst.
+Theorem C19_hooks_state_inventory : StateInst.hooks_state_inventory.
+Proof. exact StateInst.hooks_state_inventory_holds. Qed.
